@@ -66,9 +66,12 @@ RealVector randPoint(Prng& r, std::size_t n, double scale) {
 	return v;
 }
 
-// variant = <flavour>_k<digit>
-std::string flavourOf(std::string const& variant) { return variant.substr(0, variant.size() - 3); }
-std::size_t stepsOf(std::string const& variant) { return (std::size_t)(variant[variant.size() - 1] - '0'); }
+// variant = <flavour>_k<digit>[_cont]; with "_cont" the state at write time (solution(), getters) is not
+// compared, only the three continued iterates and the getters afterwards.
+bool contOnly(std::string const& variant) { return variant.size() > 5 && variant.compare(variant.size() - 5, 5, "_cont") == 0; }
+std::string core(std::string const& variant) { return contOnly(variant) ? variant.substr(0, variant.size() - 5) : variant; }
+std::string flavourOf(std::string const& variant) { std::string v = core(variant); return v.substr(0, v.size() - 3); }
+std::size_t stepsOf(std::string const& variant) { std::string v = core(variant); return (std::size_t)(v[v.size() - 1] - '0'); }
 
 // ---------- per-class traits ----------
 template<class Opt> struct Tr;
@@ -211,10 +214,12 @@ template<> struct Tr<SimplexDownhill> {
 	static void extra(Obs&, O const&) {}
 };
 
-template<class O> void continueAndObserve(Obs& ob, O& o, Quadratic const& f) {
-	ob.vec("solution.point", o.solution().point);
-	ob.d("solution.value", o.solution().value);
-	Tr<O>::extra(ob, o);
+template<class O> void continueAndObserve(Obs& ob, O& o, Quadratic const& f, bool contOnly) {
+	if (!contOnly) {
+		ob.vec("solution.point", o.solution().point);
+		ob.d("solution.value", o.solution().value);
+		Tr<O>::extra(ob, o);
+	}
 	for (std::size_t s = 0; s != 3; ++s) {
 		o.step(f);
 		ob.vec("next_iterate[" + std::to_string(s) + "]", o.solution().point);
@@ -248,14 +253,15 @@ template<class O> void optCase(Ctx& c, std::string const& variant) {
 
 	unsigned cont = (unsigned)(c.seed * 7 + 99);
 	rngA.seed(cont); rngB.seed(cont); random::globalRng.seed(cont);
-	continueAndObserve(c.A, *a, f);
+	continueAndObserve(c.A, *a, f, contOnly(variant));
 	rngA.seed(cont); rngB.seed(cont); random::globalRng.seed(cont);
-	continueAndObserve(c.B, *b, f);
+	continueAndObserve(c.B, *b, f, contOnly(variant));
 }
 
 template<class O> void addK(std::vector<Case>& v, std::string const& cls, std::string const& flavour) {
 	char const* ks[] = {"_k0", "_k1", "_k3"};
 	for (int i = 0; i != 3; ++i) addCase(v, cls, flavour + ks[i], &optCase<O>);
+	for (int i = 0; i != 3; ++i) addCase(v, cls, flavour + ks[i] + "_cont", &optCase<O>);
 }
 
 } // namespace
